@@ -23,7 +23,7 @@ func randCase(r *core.Rng, s string) string {
 }
 
 func c16Scalar(r *core.Rng) any {
-	switch r.Intn(26) {
+	switch r.Intn(30) {
 	case 0:
 		return nil
 	case 1:
@@ -70,6 +70,14 @@ func c16Scalar(r *core.Rng) any {
 		return (*stackage.Condition)(nil)
 	case 22:
 		return (*ACond)(nil)
+	case 23:
+		a := AStack(stackage.Or().Push("pa"))
+		return &a
+	case 24:
+		return (*AStack)(nil)
+	case 25:
+		a := ACond(stackage.Cond("pk", stackage.Eq, "pv"))
+		return &a
 	}
 	return fmt.Sprintf("junk%d", r.Intn(50))
 }
